@@ -180,6 +180,92 @@ def unit_resp(method, segs):
     return out[0] if out else "-"
 
 
+def unit_hs(segs):
+    """the real HttpUpstreamProxy.receive_handshake_data fed with the segments of the parent proxy's reply to CONNECT; once the
+    tunnel is open everything (the rest of the buffer, later segments) is tunnel payload, as TunnelLayer routes it"""
+    from mitmproxy.connection import Server
+    from mitmproxy.proxy.layers.http._upstream_proxy import HttpUpstreamProxy
+    ctx = _unit_ctx(); ctx.server = Server(address=("origin.example", 443))
+    lay = HttpUpstreamProxy(ctx, Server(address=("proxy.example", 3128)), True)
+    tunnel, state = [], None
+
+    def receive_data(data):
+        tunnel.append(bytes(data))
+        return
+        yield
+    lay.receive_data = receive_data
+    for seg in segs:
+        if state == "open":
+            tunnel.append(seg); continue
+        if state == "fail": break
+        gen = lay.receive_handshake_data(seg)
+        try:
+            while True: next(gen)
+        except StopIteration as e:
+            ok, err = e.value
+        if ok: state = "open"
+        elif err is not None: state = "fail"
+    return "m:" + hx(b"".join(tunnel)) if state == "open" else "r" if state == "fail" else "-"
+
+
+def sys_tokens(obs, meth):
+    """the real HttpLayer's side of the `sys` tie: completed messages in the order the proxy finished sending them —
+    Q:<body> a request forwarded to the origin, R:<body> a final response relayed to the client (interim 1xx are swallowed),
+    Qx / Rx the proxy's own 400 / 502 page (request / response could not be read) — reference-parsed from the bytes sent"""
+    toks, acc, seen = [], {}, {}
+    for lab, d in obs["sent_log"]:
+        if lab == "client" and d.startswith("ERR"):
+            # the 400 page for an unreadable request is not part of this tie: whether it still goes out when the broken body
+            # arrives in the same segment is finding F-C02b; the request-side rejections are tied at unit level (unit-req)
+            if d != "ERR400": toks.append("Rx" if d == "ERR502" else d)
+            continue
+        acc[lab] = acc.get(lab, b"") + bytes.fromhex(d)
+        if lab == "client":
+            msgs = [m for m in R.parse_responses(acc[lab], [meth] * 16, eof=False).messages if not m["interim"]]
+            tag = "R:"
+        else:
+            msgs = R.parse_requests(acc[lab]).messages
+            tag = "Q:"
+        for m in msgs[seen.get(lab, 0):]: toks.append(tag + hx(m["body"]))
+        seen[lab] = len(msgs)
+    return ",".join(toks) or "-"
+
+
+def sys_request(rng, meth):
+    body = X.gen_body(rng)
+    k = rng.weighted([(3, "none"), (4, "cl"), (3, "te"), (1, "bad")])
+    lines = [meth + b" " + rng.pick([b"/", b"/a", b"/a/b?x=1"]) + b" HTTP/1.1", b"Host: origin.example"]
+    if rng.chance(0.3): lines.append(rng.pick([b"Accept: */*", b"X-A: 1", b"Cookie: a=b; c=d", b"X-Fold: a\r\n b"]))
+    wire = b""
+    if k == "cl": lines.append(b"Content-Length: %d" % len(body)); wire = body
+    elif k == "te": lines.append(b"Transfer-Encoding: chunked"); wire = X.chunked_body(rng, body, quirks=rng.chance(0.5))
+    elif k == "bad":
+        lines += rng.pick([[b"Content-Length: 3", b"Transfer-Encoding: chunked"], [b"Content-Length: 3", b"Content-Length: 4"],
+                           [b"Content-Length: x"], [b"Transfer-Encoding: chunked"], [b"NoColon"]])
+        wire = b"Z\r\nabc\r\n"
+    return (b"\r\n" if rng.chance(0.1) else b"") + b"\r\n".join(lines) + b"\r\n\r\n" + wire
+
+
+def sys_response(rng, meth=b"GET"):
+    body = X.gen_body(rng)
+    k = rng.weighted([(4, "cl"), (3, "te"), (1, "204"), (1, "304"), (1, "bad")])
+    status = b"HTTP/1.1 200 OK"
+    lines, wire = [], b""
+    if k == "cl": lines.append(b"Content-Length: %d" % len(body)); wire = body
+    elif k == "te": lines.append(b"Transfer-Encoding: chunked"); wire = X.chunked_body(rng, body, quirks=rng.chance(0.5))
+    elif k == "204": status = b"HTTP/1.1 204 No Content"
+    elif k == "304": status = b"HTTP/1.1 304 Not Modified"; lines.append(b"Content-Length: 5")
+    else:
+        # (for HEAD the reader never looks at the framing fields — HttpStream's validate_headers does, which is C01's subject and
+        # not part of the coupled-readers model: only unreadable heads there)
+        lines += [b"NoColon"] if meth == b"HEAD" else rng.pick([[b"Content-Length: 3", b"Content-Length: 4"], [b"Content-Length: x"], [b"Transfer-Encoding: chunked"], [b"NoColon"]])
+        wire = b"Z\r\nabc\r\n"
+    if rng.chance(0.3): lines.append(rng.pick([b"X-A: 1", b"Content-Type: text/plain", b"Set-Cookie: a=b"]))
+    lead = b"\r\n" if rng.chance(0.1) else b""
+    if rng.chance(0.15): lead += b"HTTP/1.1 103 Early Hints\r\nLink: </x>\r\n\r\n"
+    return lead + b"\r\n".join([status] + lines) + b"\r\n\r\n" + wire
+
+
 def first_terminal(model_reply):
     items = model_reply.split(" ")[0]
     if items == "-": return "-"
@@ -204,8 +290,17 @@ class Check(PropertyCheck):
                   "upstream reader expect a response, a completed response releases the client-side reader): client_early, "
                   "merged_schedule_normal_form (every causal interleaving of client and server segments = all client bytes first, then "
                   "the same server segments), merged_schedule_independent, client_merge, server_merge — the outcome depends only on the "
-                  "client byte stream and the byte string of each response; old_machine_counterexample shows the pre-fix machine violates the law on the F-C02a witness. The real "
-                  "HttpLayer is checked directly with no model in between: for generated exchanges (1-3 pipelined requests, scripted "
+                  "client byte stream and the byte string of each response; causal_of_expected (Causal follows from the invariant Inv and the "
+                  "environment assumption Expected), answered_in_order (completed requests and responses alternate), "
+                  "expect_only_when_idle (the default branch of `expect` is unreachable under Inv); old_machine_counterexample shows "
+                  "the pre-fix machine violates the law on the F-C02a witness. Tied to the code by the driver mv_c02 at three levels: "
+                  "`req`/`resp` — the machine vs the bare Http1Server / Http1Client on segmented streams; `hs` — the machine instantiated "
+                  "with handshakeSize vs the real HttpUpstreamProxy.receive_handshake_data on segmented CONNECT replies (tunnel / refused / "
+                  "incomplete, and what is left for the tunnel); `sys` — sysRun (the object of the merged-schedule theorems, with "
+                  "requestSize / responseSize) replayed on the segments in the order they were actually delivered to the real HttpLayer, "
+                  "compared with the sequence of complete requests forwarded upstream and final responses relayed to the client (bodies, "
+                  "order across both connections, 502 for an unreadable response). Besides, the real HttpLayer is checked directly "
+                  "with no model in between: for generated exchanges (1-3 pipelined requests, scripted "
                   "origin responses, addon edits) the outcome of a schedule (segmentation of both streams + interleaving respecting "
                   "causality) must equal the outcome of whole-stream delivery: flows, hook sequence per flow, reference-parsed messages "
                   "per connection, client-side close.")
@@ -213,14 +308,28 @@ class Check(PropertyCheck):
                   "arrives only while the client-side reader waits for the flow to finish); "
                   "on the client side bytes that arrive while no request is outstanding stay buffered in the model, the real code "
                   "closes the connection (excluded by the causality assumption). The discard of CR LF after chunk data is matched "
-                  "byte by byte in the model (h11 matches as many bytes as are there — same result under the drain loop). No "
-                  "Model tie (driver mv_c02): the machine is run on generated segmentations and compared with the bare real Http1Server "
-                  "(every completed request answered at once, mark_done's keep-alive decision via C01.connectionClose) — messages with "
-                  "bodies, rejections, protocol errors and the reader sub-state at the end — and with the bare Http1Client up to the "
-                  "first completed/failed response; the functions the machine uses are additionally tied in C01. "
+                  "byte by byte in the model (h11 matches as many bytes as are there — same result under the drain loop). "
+                  "Model tie (driver mv_c02), details: `req` — the machine is run on generated segmentations and compared with the bare real Http1Server "
+                  "(every completed request answered at once, mark_done's keep-alive decision via C01.connectionClose; this glue, `afterMsg`, "
+                  "is the driver's, it is not an object of any theorem) — messages with "
+                  "bodies, rejections, protocol errors and the reader sub-state at the end — `resp` — with the bare Http1Client up to the "
+                  "first completed/failed response; the functions the machine uses are additionally tied in C01. `sys` cases are the "
+                  "class the Sys model describes: one upstream connection (reverse mode), one request method per case (sizeR is fixed), "
+                  "HTTP/1.1 keep-alive, no addon edits, no streaming, no read-until-close responses, causal schedules; not compared there: "
+                  "the proxy's own 400 page for an unreadable request (whether it is still written is finding F-C02b; request-side "
+                  "rejections are tied by `req`), the final reader phases (the run ends with the client's half-close), and HttpStream's "
+                  "validate_headers, which is not part of the coupled-readers model (for HEAD only unreadable response heads are "
+                  "generated). The quick tier runs 400 tie cases (all four kinds) before anything else, corpus/C02/model_tie.json holds 22 fixed ones. "
+                  "Hook sequence: the statement's 'same … hook sequence' has NO theorem — the model's outputs are messages and "
+                  "rejections only; hooks are compared by the direct oracle on the real layer (segmented vs whole delivery). "
+                  "answered_in_order proves that completed requests and responses ALTERNATE (the k-th response after the k-th request and "
+                  "before the (k+1)-th) on one in-order connection under Inv and Expected — that is 'each response matched to its own "
+                  "request' there; requests the proxy answers itself (400) and protocol errors are not messages in `msgsOf` and do not "
+                  "take part in the alternation (after one of them the reader is closed). "
                   "Out of scope by design: tunnel payload after CONNECT, request streaming (head forwarded before the body is judged), "
                   "an origin that drops a keep-alive connection without announcing it (races with the next request).")
-    technique = "Lean 4 proof (feed_append for the drain loop + generic seg_independent) + schedule-vs-whole oracle on the real layer"
+    technique = ("Lean 4 proof (feed_append for the drain loop + generic seg_independent; merged schedules by induction) + model tie "
+                 "at reader, handshake and HttpLayer level + schedule-vs-whole oracle on the real layer")
     rule = ("all three inbound HTTP/1 byte streams are segmented: client requests, origin responses, and the parent proxy's reply to "
             "CONNECT (per-flow server_conn.via: 200/204/299/407/502/403, with body, extra or folded headers, bare LF, leading CRLF, "
             "non-HTTP greetings; every split point incl. inside 'HTTP/' and byte by byte for four fixed replies, random cuts otherwise); "
@@ -247,7 +356,14 @@ class Check(PropertyCheck):
         self.known_selftest()
 
     def generate(self, rng, tier):
-        # every split point of short streams first
+        # the model tie first (cheap, and the quick tier's time budget must not be spent before it runs): bare Http1Server /
+        # Http1Client / receive_handshake_data vs the machine, and the real HttpLayer vs sysRun
+        k, n0 = 0, (400 if tier == "quick" else 2000)
+        while k < n0:
+            for c in self.unit_cases(rng):
+                k += 1
+                yield c
+        # every split point of short streams
         short = [
             (b"\r\nGET http://origin.example/ HTTP/1.1\r\nHost: origin.example\r\n\r\n", b"HTTP/1.1 200 OK\r\nContent-Length: 2\r\n\r\nhi"),
             (b"POST /a HTTP/1.1\r\nHost: origin.example\r\nTransfer-Encoding: chunked\r\n\r\n3\r\nabc\r\n0\r\n\r\nGET /b HTTP/1.1\r\nHost: origin.example\r\n\r\n",
@@ -326,7 +442,27 @@ class Check(PropertyCheck):
     def unit_cases(self, rng):
         """segments for the bare readers, cut from the same grammar (requests without absolute targets / CONNECT: the authority
         check is a parameter of the model)"""
-        if rng.chance(0.6):
+        kind = rng.weighted([(5, "req"), (3, "resp"), (2, "hs"), (4, "sys")])
+        if kind == "hs":
+            # the parent proxy's reply to CONNECT for the bare HttpUpstreamProxy.receive_handshake_data (handshakeSize)
+            data = rng.pick(X.PROXY_REPLIES)
+            if rng.chance(0.4): data = data + rng.pick([b"", b"\x16\x03\x01tunnel", b"\r\n", b"HTTP/1.1 200 OK\r\n\r\n"])
+            if rng.chance(0.2): data = X.mutate(rng, data)
+            if rng.chance(0.2) and len(data) > 2: data = data[:rng.randrange(1, len(data))]
+            if not data: return
+            cuts = sorted(rng.sample(range(1, len(data)), min(len(data) - 1, rng.pick([0, 1, 3, 8])))) if len(data) > 1 else []
+            if rng.chance(0.1): cuts = list(range(1, len(data)))
+            yield {"op": "unit-hs", "segs": [hx(x) for x in X.cut(data, cuts)]}
+        elif kind == "sys":
+            # both readers coupled by the real HttpLayer (buffered mode, one upstream connection, one method, keep-alive, no
+            # edits): the schedule actually delivered is replayed through Model/C02 sysRun
+            meth = rng.pick([b"GET", b"POST", b"HEAD", b"PUT"])
+            n = rng.weighted([(4, 1), (4, 2), (2, 3)])
+            client = b"".join(sys_request(rng, meth) for _ in range(n))
+            base = {"op": "sys", "method_hex": hx(meth), "mode": "reverse", "client_hex": hx(client), "edits": [],
+                    "resps": [{"data_hex": hx(sys_response(rng, meth)), "close": False} for _ in range(n)]}
+            yield X.gen_schedule(rng, base)
+        elif kind == "req":
             n = rng.weighted([(5, 1), (3, 2), (2, 3)])
             data = b"".join(X.gen_request(rng, "reverse") for _ in range(n))
             if rng.chance(0.25): data = X.mutate(rng, data)
@@ -345,6 +481,13 @@ class Check(PropertyCheck):
             yield {"op": "unit-resp", "method_hex": hx(rng.pick([b"GET", b"HEAD", b"POST"])), "segs": [hx(x) for x in X.cut(data, cuts)]}
 
     def impl(self, case):
+        if case.get("op") == "unit-hs":
+            return {"unit": unit_hs([unhx(x) for x in case["segs"]])}
+        if case.get("op") == "sys":
+            obs = X.run(case)
+            out = {"unit": sys_tokens(obs, unhx(case["method_hex"])), "recv": obs["recv_log"]}
+            self._last_sys = (case, out)
+            return out
         if case.get("op") == "unit-req":
             return {"unit": unit_req([unhx(x) for x in case["segs"]])}
         if case.get("op") == "unit-resp":
@@ -359,9 +502,20 @@ class Check(PropertyCheck):
     def model_lines(self, case):
         if case.get("op") == "unit-req": return ["req " + " ".join(case["segs"])]
         if case.get("op") == "unit-resp": return ["resp " + case["method_hex"] + " " + " ".join(case["segs"])]
+        if case.get("op") == "unit-hs": return ["hs " + " ".join(case["segs"])]
+        if case.get("op") == "sys":
+            # the model is given the segments in the order the runner actually delivered them (client cuts, response cuts and
+            # the interleaving chosen by `sched` under causality)
+            last = getattr(self, "_last_sys", None)
+            obs = last[1] if last is not None and last[0] is case else self.impl(case)
+            return ["sys " + case["method_hex"] + " " + " ".join(obs["recv"])]
         return None
 
     def model_obs(self, case, replies):
+        if case["op"] == "sys":
+            # the SysOut sequence without the request-side rejections (see sys_tokens); the final phases are not observable
+            # after the run's final half-close
+            return ",".join(t for t in replies[0].split(" ")[0].split(",") if t != "Qx") or "-"
         return first_terminal(replies[0]) if case["op"] == "unit-resp" else replies[0]
 
     def impl_view(self, case, obs):
@@ -458,11 +612,15 @@ class Check(PropertyCheck):
         assert self.known(pos2, obs, fail) is None, "a 400 page for a head that validates is a different failure"
 
     def classify(self, case, obs):
+        if case.get("op") == "sys": return json.dumps(case, sort_keys=True) if len(obs["recv"]) > 1 else None
         if "unit" in obs: return json.dumps(case) if len(case["segs"]) > 1 else None
         if not obs["nseg"]: return None
         return json.dumps([case["mode"], case["client_hex"], case.get("ccuts"), case.get("scuts"), case.get("sched"), case.get("proxy_replies")])
 
     def branches(self, case, obs):
+        if case.get("op") == "sys":
+            t = obs["unit"].split(",")
+            return ["sys:msgs=%d" % sum(1 for x in t if x[:2] in ("Q:", "R:"))] + sorted({"sys:" + x for x in t if x in ("Qx", "Rx")})
         if "unit" in obs: return [case["op"] + ":" + obs["unit"].split(" ")[-1][:8]]
         out = ["mode:" + case["mode"], "flows:%d" % len(obs["seg"]["flows"])]
         out.append("segments:" + ("0" if obs["nseg"] == 0 else "1-3" if obs["nseg"] <= 3 else "4-20" if obs["nseg"] <= 20 else ">20"))
